@@ -8,7 +8,6 @@
        pv_on_m2  reply            Fail | Send M3 (state = shared secret) | Done (resume)
        pv_on_m4  reply            Fail | Done
    Replies are decoded TLV item lists (wire order).  Definitions only. *)
-From Coq Require Import String Ascii.
 From Coq Require Import List NArith Arith Bool.
 From AHK Require Import Lib.Res Lib.ByteStr Model.Tlv Model.Sym.
 Import ListNotations.
